@@ -22,8 +22,8 @@ from pathlib import Path
 ROOT = Path(__file__).resolve().parent.parent
 LEAN = ROOT / "lean"
 REPO = Path(os.environ.get("EXO_REPO", "/repo"))
-EVID = ROOT / "evidence"
-REPLAY = ROOT / "replays"
+EVID = Path(os.environ.get("VERIF_EVIDENCE_DIR", ROOT / "evidence"))
+REPLAY = Path(os.environ.get("VERIF_REPLAY_DIR", ROOT / "replays"))
 ALLOWED_AXIOMS = {"propext", "Classical.choice", "Quot.sound"}
 FORBIDDEN = re.compile(
     r"\bsorry\b|\badmit\b|^\s*axiom\s|native_decide|bv_decide|implemented_by|\bunsafe\s|maxHeartbeats\s+0\b"
